@@ -32,6 +32,7 @@ func checkC10(p *Prog, r *Report) {
 	}
 	r.Rule("R8", "every hand-written element-wise comparison of two slices of one type compares their lengths for equality: entity addresses are never matched by prefix (shared lint, C20-R6)")
 	sliceEqualityHelpers(p, r, "R8")
+	capturedStateMapRule(p, r, "R14")
 	r.Rule("R12", "RemoveEntityByAddress drops exactly the entity it hands back to the cascade (retain truth table: keep ⇔ not the entity found for the address): an entry dropped on the side keeps its subscriptions, bindings and caches — also past the disconnect, which walks the remaining entities (shared with C06-R12)")
 	applyRetain(p, r, "R12", "spine", "DeviceRemote", "RemoveEntityByAddress", retainSpec{Field: F("DeviceRemote.entities"), Required: map[string]string{"entity": "=$"}})
 	entityListWriters(p, r, "R13")
